@@ -7,7 +7,7 @@ import uuid
 from fractions import Fraction as F
 
 from rv.core import ctx as _ctx
-from rv.core import instrument, scribble
+from rv.core import calling, instrument, scribble
 from rv.core.tolerances import ULP_BAND_REL
 
 ANCHORS = ("operations.py",)
@@ -189,6 +189,18 @@ def judge(ctx, start, end, duration, hop, inc, ids=False):
     except Exception as e:
         ctx.violate_exc("unexpected_exception", f"unexpected_exception:{type(e).__name__}", e, spec=spec)
         return
+    if ctx.every(spec, 5):
+        # positionally in the documented order, with a numpy.bool_ / 0-1 flag and numpy / int numbers: the same call
+        sig = lambda it: [(c_.start_time, c_.end_time, c_.uuid) for c_ in it]
+        orig_fn = instrument.original(O.segment_clip)
+        st0 = calling.outcome(lambda: sig(orig_fn(clip, duration, hop=hop, include_incomplete=inc)))
+        for label, call in (("positional_in_documented_order", lambda: sig(orig_fn(clip, duration, hop, inc))),
+                            ("boolish_flag", lambda: sig(orig_fn(clip, duration, hop=hop, include_incomplete=calling.boolish(ctx.rng, inc)))),
+                            ("numlike_numbers", lambda: sig(orig_fn(clip, calling.numlike(ctx.rng, duration), hop=calling.numlike(ctx.rng, hop), include_incomplete=inc)))):
+            st1 = calling.outcome(call)
+            ctx.mon("calling_conventions")
+            if st1 != st0:
+                ctx.violate("calling_convention", f"calling_convention:segment_clip:{label}", observed=[st1[0], len(st1[1] or [])], expected=[st0[0], len(st0[1] or [])], spec=spec)
     if ctx.every(spec, 8):
         try:
             # two lazily consumed segmentations alive at once (zip over two clips): each stream judged on its own
